@@ -1139,6 +1139,88 @@ fn cmd_fuzz(args: &[String]) {
     println!("{}", json!({"records":count}));
 }
 
+// ---------------------------------------------------------------------------------------
+// vectors: RFC 5769 / RFC 8489 appendix B test vectors as fixed seeds (C02, C04, C10)
+// The logical content is written here by hand from the RFC text; the bytes come from the
+// repository's stun-vectors crate. TLC checks: reference layout of the logical content = vector
+// bytes up to padding (the vectors pad with 0x20), the real decoder reads the logical content back.
+// ---------------------------------------------------------------------------------------
+fn cmd_vectors(args: &[String]) {
+    let out = arg(args, "--out", "out");
+    std::fs::create_dir_all(&out).unwrap();
+    let mut f = BufWriter::new(File::create(format!("{}/trace.ndjson", out)).unwrap());
+    let b = |s: &str| bytes_json(s.as_bytes());
+    let txid1: Vec<u8> = vec![0xb7, 0xe7, 0xa7, 0x01, 0xbc, 0x34, 0xd6, 0x86, 0xfa, 0x87, 0xdf, 0xae];
+    let txid4: Vec<u8> = vec![0x78, 0xad, 0x34, 0x33, 0xc6, 0xad, 0x72, 0xc0, 0x29, 0xda, 0x41, 0x2e];
+    let user_jp = "\u{30DE}\u{30C8}\u{30EA}\u{30C3}\u{30AF}\u{30B9}";
+    let v6: Vec<u8> = vec![0x20, 0x01, 0x0d, 0xb8, 0x12, 0x34, 0x56, 0x78, 0x00, 0x11, 0x22, 0x33, 0x44, 0x55, 0x66, 0x77];
+    let uh = obs::sha256(format!("{}:{}", user_jp, "example.org").as_bytes());
+    let vectors: Vec<(&str, &[u8], u16, &str, Vec<u8>, Value, Option<&str>)> = vec![
+        ("5769-2.1", &stun_vectors::SAMPLE_REQUEST[..], 1, "request", txid1.clone(), json!([
+            {"kind":"Software","fields":{"s":b("STUN test client")}},
+            {"kind":"Priority","fields":{"w":[0x6e00, 0x01ff]}},
+            {"kind":"IceControlled","fields":{"w":[0x932f, 0xf9b1, 0x5126, 0x3b36]}},
+            {"kind":"UserName","fields":{"s":b("evtj:h6vY")}},
+            {"kind":"MessageIntegrity","fields":{}},{"kind":"Fingerprint","fields":{}}]), Some("VOkJxbRl1RmTxUk/WvJxBt")),
+        ("5769-2.2", &stun_vectors::SAMPLE_IPV4_RESPONSE[..], 1, "success", txid1.clone(), json!([
+            {"kind":"Software","fields":{"s":b("test vector")}},
+            {"kind":"XorMappedAddress","fields":{"fam":4,"port":32853,"ip":[192, 0, 2, 1]}},
+            {"kind":"MessageIntegrity","fields":{}},{"kind":"Fingerprint","fields":{}}]), Some("VOkJxbRl1RmTxUk/WvJxBt")),
+        ("5769-2.3", &stun_vectors::SAMPLE_IPV6_RESPONSE[..], 1, "success", txid1.clone(), json!([
+            {"kind":"Software","fields":{"s":b("test vector")}},
+            {"kind":"XorMappedAddress","fields":{"fam":6,"port":32853,"ip":bytes_json(&v6)}},
+            {"kind":"MessageIntegrity","fields":{}},{"kind":"Fingerprint","fields":{}}]), Some("VOkJxbRl1RmTxUk/WvJxBt")),
+        ("5769-2.4", &stun_vectors::SAMPLE_REQUEST_LONG_TERM_AUTH[..], 1, "request", txid4.clone(), json!([
+            {"kind":"UserName","fields":{"s":b(user_jp)}},
+            {"kind":"Nonce","fields":{"s":b("f//499k954d6OL34oL9FSTvy64sA")}},
+            {"kind":"Realm","fields":{"s":b("example.org")}},
+            {"kind":"MessageIntegrity","fields":{}}]), None),
+        ("8489-B.1", &stun_vectors::SAMPLE_REQUEST_LONG_TERM_AUTH_SHA256[..], 1, "request", txid4.clone(), json!([
+            {"kind":"UserHash","fields":{"h":bytes_json(&uh)}},
+            {"kind":"Nonce","fields":{"s":b("obMatJos2AAACf//499k954d6OL34oL9FSTvy64sA")}},
+            {"kind":"Realm","fields":{"s":b("example.org")}},
+            {"kind":"MessageIntegritySha256","fields":{}}]), None),
+    ];
+    let mut n = 0u64;
+    for (name, bytes, method, cls, txid, attrs, pw) in vectors {
+        let p = obs::parse(bytes);
+        let mut zeroed = bytes.to_vec();
+        let mut opaque = json!({"MessageIntegrity":[],"MessageIntegritySha256":[],"Fingerprint":[]});
+        if let Some(p) = &p {
+            for a in &p.attrs {
+                for j in 0..a.padding.len() { zeroed[a.off + 4 + a.value.len() + j] = 0; }
+                match a.t {
+                    obs::T_MI => opaque["MessageIntegrity"] = bytes_json(&a.value),
+                    obs::T_SHA => opaque["MessageIntegritySha256"] = bytes_json(&a.value),
+                    obs::T_FP => opaque["Fingerprint"] = bytes_json(&a.value),
+                    _ => {}
+                }
+            }
+        }
+        let dec = stun_rs::MessageDecoderBuilder::default().build();
+        let (dres, dattrs, dsize) = match catch_unwind(AssertUnwindSafe(|| dec.decode(bytes))) {
+            Err(_) => ("panic", json!([]), -1i64),
+            Ok(Err(_)) => ("err", json!([]), -1),
+            Ok(Ok((m, sz))) => ("ok", Value::Array(m.attributes().iter().map(zoo::project).collect()), sz as i64),
+        };
+        // integrity / fingerprint of the vector validate under the RFC's password (short-term vectors)
+        let valid = match pw {
+            Some(pw) => {
+                let key = HMACKey::new_short_term(pw).unwrap();
+                accepted(bytes, obs::T_MI, &key).0 && accepted(bytes, obs::T_FP, &key).0
+                    && !accepted(bytes, obs::T_MI, &HMACKey::new_short_term(format!("{}x", pw)).unwrap()).0
+            }
+            None => true,
+        };
+        writeln!(f, "{}", json!({"op":"ign","vector":name,"method":method,"cls":cls,"txid":bytes_json(&txid),"attrs":attrs,
+            "bytes":bytes_json(&zeroed),"alt":bytes_json(bytes),"dec":dres,"dec_attrs":dattrs,"dec_size":dsize,
+            "opaque":opaque,"valid":valid})).unwrap();
+        n += 1;
+    }
+    f.flush().unwrap();
+    println!("{}", json!({"records":n}));
+}
+
 fn main() {
     std::panic::set_hook(Box::new(|_| {}));
     let args: Vec<String> = std::env::args().collect();
@@ -1150,6 +1232,7 @@ fn main() {
         "ignorable" => cmd_ignorable(&args),
         "faults" => cmd_faults(&args),
         "fuzz" => cmd_fuzz(&args),
+        "vectors" => cmd_vectors(&args),
         _ => {
             eprintln!("usage: drive-codec filter ...");
             std::process::exit(2);
